@@ -327,7 +327,7 @@ void judge(const sim::Json& sc, const RunRecord& rec, sim::RunResult& r) {
   auto after = rec.files_after.find("stub.sol");
   bool stale_left = before != rec.files_before.end() && after != rec.files_after.end() && before->second == after->second;
   bool sol_written = after != rec.files_after.end() && !stale_left;
-  std::string outcome;
+  std::string outcome, spurious_unsup;
   oracle::SolFile sf;
   if (sol_written) {
     sf = oracle::parse_sol(after->second);
@@ -352,6 +352,14 @@ void judge(const sim::Json& sc, const RunRecord& rec, sim::RunResult& r) {
         if (ok_class && msg.find("Model infeasible") != std::string::npos && !(sf.code >= 200 && sf.code <= 299))
           flag("INFEASIBLE_REPORTED_AS_FAILURE", "conversion", "the .sol diagnoses '" + msg.substr(0, 300) + "' but carries solve code " + std::to_string(sf.code) + " (expected 200-299)");
         if (msg.find("Model infeasible") != std::string::npos) r.stats.set("probe.infeasible_by_conversion", 1);
+        // "uses a construct the converter does not support": the diagnosis must be true.  The generator knows which models use
+        // one (functions, atan2, round, !alldiff, ...); with every constraint type accepted natively or convertible, a model
+        // without any must not be refused as 'not implemented'
+        if (ok_class && !sc["expect"]["unsupported"].as_bool() && label != "MALFORMED" && !visitor &&
+            (msg.find("not implemented") != std::string::npos || msg.find("nsupported") != std::string::npos)) {
+          r.stats.set("probe.refused_as_unsupported_without_unsupported_construct", 1);
+          spurious_unsup = msg.substr(0, 300);
+        }
         outcome = "B1";
       } else {
         outcome = "A";
